@@ -121,6 +121,12 @@ class NP:
     def index(self, interp, t, idx, line, check=True):
         ctx = interp.ctx
         fname = interp.cur_func
+        if isinstance(t, SIdx) and isinstance(idx, slice) and idx.start is None and idx.step is None and \
+                not is_sym(idx.stop) and idx.stop == -1:
+            # i[:-1] of an index vector; for an empty vector numpy returns the empty vector
+            if ctx.branch(cmpop('>=', t.L, 1), line):
+                return V.sidx_drop_last(ctx, t)
+            return t
         idx = self._expand(t, idx)
         # convert boolean masks to index vectors
         conv = []
@@ -618,7 +624,12 @@ class NP:
 
         def fn(*i):
             i = list(i)
-            i[ax] = binop('%', binop('-', i[ax], shift), n)
+            v = binop('-', i[ax], shift)
+            if not is_sym(shift) and abs(shift) <= 1 and is_sym(n):
+                # |shift| <= 1 <= n: one conditional wrap equals the modulus and stays linear
+                i[ax] = z_ite(cmpop('<', v, 0), binop('+', v, n), z_ite(cmpop('>=', v, n), binop('-', v, n), v))
+            else:
+                i[ax] = binop('%', v, n)
             return af(*i)
         return STensor(a.shape, fn, a.dtype)
 
@@ -646,7 +657,10 @@ class NP:
                 nxt = chain[q + 1][0]
                 out = z_ite(cmpop('<', i, nxt), f(binop('-', i, o), *r), out)
             return out
-        return STensor((total,) + tuple(rest), fn, V.dtype_join(*[t.dtype for t in ts]))
+        out = STensor((total,) + tuple(rest), fn, V.dtype_join(*[t.dtype for t in ts]))
+        if all(isinstance(t, SIdx) for t in ts):
+            out.parts = list(ts)
+        return out
 
     def f_vstack(self, interp, line, seq):
         from .values import SSeq
@@ -808,6 +822,11 @@ class NP:
         a = as_tensor(a)
         n = a.shape[1]
         af = a.fn
+        g = lambda c: to_z3(n) - 1 - c  # noqa: E731  (mirror index: instantiation term for goal-directed instances)
+        g.mirror = True
+        if not any(getattr(x, 'mirror_of', None) == str(n) for x in interp.ctx.inst_terms):
+            g.mirror_of = str(n)
+            interp.ctx.inst_terms.append(g)
         return STensor(a.shape, lambda i, j, *r: af(i, binop('-', binop('-', n, 1), j), *r), a.dtype)
 
     def f_flip(self, interp, line, a, axis=None):
